@@ -101,4 +101,12 @@ def cases4() -> List[Dict[str, Any]]:
         "def f(a: \"" + "-" * 3000 + "1\", b: '(' = 1) -> \"" + "(" * 400 + "\": pass\nv: \"" + "[" * 1500 + "\" = 0\n"
         "class C:\n    w: 'a b' = 1\n    w += 'c d'\n")}))
     A(case("class-name-longer-than-a-file-name", {"pk/m.py": "class " + "K" * 260 + ":\n    'doc'\n    def m(self): pass\nclass Short(" + "K" * 260 + "):\n    pass\n"}))
+    A(case("calls-that-unpack-their-arguments", {"pk/m.py": (
+        "import re, attr, functools\nfrom twisted.python.deprecate import deprecated\nfrom incremental import Version\n"
+        "ARGS = (r'\\d+', re.I)\nKW = {'flags': re.I}\nOPTIONS = ()\n"
+        "PAT = re.compile(*ARGS)\n'doc'\nPAT2 = re.compile(*ARGS, **KW)\nPAT3 = re.compile(**KW)\nPAT4 = re.compile()\nPAT5 = re.compile('a', 'b', 'c', 'd')\n"
+        "def lexer(text, pattern=re.compile(*ARGS), other=re.compile(pattern='x', *ARGS)):\n    'doc'\n"
+        "def deco(*a, **k):\n    return lambda f: f\n@deco(re.compile(*ARGS))\ndef decorated(): 'doc'\n"
+        "@attr.s(*OPTIONS)\nclass A:\n    x = attr.ib(*OPTIONS)\n    y = attr.ib(**KW)\n@attr.s(**KW)\nclass B:\n    pass\n"
+        "@deprecated(*ARGS)\ndef old(): 'doc'\n@deprecated(**KW)\nclass Old: pass\n@deprecated(Version(*ARGS))\ndef older(): pass\n")}))
     return out
